@@ -20,7 +20,7 @@ def classify(res):
             pid = o.split(":", 1)[0].strip()
             hits.setdefault(pid, []).append((i, c, res["impl"][i], o))
     for (i, c, im, mo) in res["mismatches"]:
-        if c.startswith(("lr.validate", "lr.recovery_ok")):
+        if c.startswith(("lr.validate", "lr.recovery_ok", "lr.justify")):
             vfail.append((i, c, im, mo))
         else:
             mism.append((i, c, im, mo))
